@@ -272,4 +272,105 @@ theorem constructT_constructG (groups : List Name) (syn : List (Name × Name)) (
                             h8, h9, h10, h11]
                           rfl
 
+/-! ### choice symbols and wrappers as sequence elements / items -/
+
+theorem squashStep_fch_true (cl : Cleanuper) (name : Name) (rs : List (El × Bool)) (r : El × Bool)
+    (h : squashStep cl name false true rs = .ok r) : r.2 = true := by
+  unfold squashStep at h
+  cases rs with
+  | nil => simp at h; rw [← h]
+  | cons a rest =>
+    simp only at h
+    split at h
+    · cases rest with
+      | nil =>
+        simp only [Bool.true_or, Bool.true_and, Bool.or_false] at h
+        split at h
+        · cases h; rfl
+        · first
+            | (cases h; rfl)
+            | (split at h
+               · rename_i h1 h2
+                 exact absurd h2 h1
+               · cases h; rfl)
+      | cons _ _ => simp at h
+    · cases h; rfl
+
+/-- an element cleaned as the child of a choice symbol (`for_choice=True`) must not be squashed further -/
+theorem cleanup_fch_true (cl : Cleanuper) (t : Val) (r : El × Bool)
+    (h : cleanup cl t false true = .ok r) : r.2 = true := by
+  cases t with
+  | elem name leaf v =>
+    cases htp : lookup cl.templates name with
+    | some tpl =>
+      cases tpl with
+      | list o =>
+        rw [cleanup_of_list_template cl o _ _ _ _ _ htp] at h
+        split at h
+        · cases h; rfl
+        · cases h
+      | map o =>
+        rw [cleanup_of_map_template cl o _ _ _ _ _ htp] at h
+        split at h
+        · cases h; rfl
+        · cases h
+    | none =>
+      cases leaf with
+      | true =>
+        cases v with
+        | list xs =>
+          simp only [cleanup, htp, bind, Except.bind, pure, Except.pure] at h
+          cases hcs : cleanSeq cl xs with
+          | error e => simp [hcs] at h
+          | ok ys => simp [hcs] at h; rw [← h]
+        | none => simp [cleanup, htp] at h; rw [← h]
+        | str _ => simp [cleanup, htp] at h; rw [← h]
+        | dict _ => simp [cleanup, htp] at h; rw [← h]
+        | elem _ _ _ => simp [cleanup, htp] at h; rw [← h]
+      | false =>
+        cases v with
+        | list xs =>
+          simp only [cleanup, htp, bind, Except.bind] at h
+          cases hcs : cleanupAll cl xs (decide (name ∈ cl.choice)) with
+          | error e => simp [hcs] at h
+          | ok rs =>
+            simp only [hcs] at h
+            exact squashStep_fch_true _ _ _ _ h
+        | none => simp [cleanup, htp] at h
+        | str _ => simp [cleanup, htp] at h
+        | dict _ => simp [cleanup, htp] at h
+        | elem _ _ _ => simp [cleanup, htp] at h
+  | none => simp [cleanup] at h
+  | str _ => simp [cleanup] at h
+  | list _ => simp [cleanup] at h
+  | dict _ => simp [cleanup] at h
+
+/-- a squashable choice symbol that is not kept vanishes around the alternative it selected, whatever the flags of the
+call (container item, sequence element, root child): the result is the cleaned alternative itself -/
+theorem cleanup_choice_node (cl : Cleanuper) (V : Name) (x : Val) (fc : Bool)
+    (hT : lookup cl.templates V = none) (hs : V ∈ cl.squash) (hc : V ∈ cl.choice) (hk : V ∉ cl.keep) :
+    cleanup cl (.elem V false (.list [x])) fc false = cleanup cl x false true := by
+  have h1 : decide (V ∈ cl.choice) = true := by simp [hc]
+  have h2 : decide (V ∈ cl.keep) = false := by simp [hk]
+  simp only [cleanup, hT, cleanupAll, h1, bind, Except.bind, pure, Except.pure]
+  cases hx : cleanup cl x false true with
+  | error e => simp
+  | ok r =>
+    have hr := cleanup_fch_true cl x r hx
+    simp [squashStep, hs, h2, hr]
+    cases r; simp_all
+
+/-- a one-production wrapper (squashable, not a choice symbol, not kept) around an element that must not be squashed
+vanishes too -/
+theorem cleanup_wrapper_node (cl : Cleanuper) (W : Name) (y : Val) (fc : Bool) (r : El × Bool)
+    (hT : lookup cl.templates W = none) (hs : W ∈ cl.squash) (hc : W ∉ cl.choice) (hk : W ∉ cl.keep)
+    (hy : cleanup cl y false false = .ok r) (hr : r.2 = true) :
+    cleanup cl (.elem W false (.list [y])) fc false = .ok r := by
+  have h1 : decide (W ∈ cl.choice) = false := by simp [hc]
+  have h2 : decide (W ∈ cl.keep) = false := by simp [hk]
+  simp only [cleanup, hT, cleanupAll, h1, hy, bind, Except.bind, pure, Except.pure]
+  simp [squashStep, hs, h2, hr]
+  cases r; simp_all
+
+
 end Templates
